@@ -96,6 +96,29 @@ def check_one(t, q, tag):
                     "metadata list differs (missing / duplicated / order: an outer wrapper must "
                     "precede the wrappers inside its source)", src, exp_md, got_md, replay)
         return
+    # the returned dictionaries belong to the caller (back ends fold them into one with
+    # dict.update): what it does to them must not show in a LATER call, on this or any other
+    # query with a wrapper of the same text (seed C15_h: literal values memoised by text)
+    for k, d in enumerate(got_md):
+        if isinstance(d, dict):
+            if k % 2:
+                d.clear()
+            else:
+                d["__consumer__"] = k
+    try:
+        got_ast3, got_md3 = extract_metadata(copy.deepcopy(q))
+    except Exception as ex:
+        t.violation("extract_metadata:no-exception", f"a later call raises {type(ex).__name__}",
+                    src, None, repr(ex), dict(replay, step="later call"))
+        return
+    t.contract("extract_metadata: a later call, after the consumer edited the returned "
+               "dictionaries, gives the same answer")
+    if list(got_md3) != list(exp_md) or not specrt.same(got_ast3, exp_ast):
+        t.violation("extract_metadata:ensures same(result[1], collect_metadata(a))",
+                    "a later call on an equal, freshly built query returns other dictionaries "
+                    "after the consumer edited the ones returned before", src, exp_md, got_md3,
+                    dict(replay, step="later call"))
+        return
     # ---- remove_empty_metadata
     arg = copy.deepcopy(q)
     before = dump(arg)
